@@ -9,7 +9,7 @@ pairing/dlog layer (C11) use, at the level of *values* (canonical representative
 (norm criterion), `fp2_inv`, `fp2_sqrt` (as coded, incl. its sign management), Montgomery decoding.
 The limb level is C07's business; this file is tied to the C by the C10/C11 correspondence harness.
 -/
-namespace SqiModel.Fp2N
+namespace SqiModel.Fp2V
 
 /-- square-and-multiply, structurally recursive on `fuel` (≥ bit length of `e`) -/
 def powModAux (m : Nat) : Nat → Nat → Nat → Nat → Nat
@@ -112,4 +112,4 @@ def f2sqrt (p : Nat) (x : F2) : F2 :=
 def fromMont (p nwords raw : Nat) : Nat := fmul p raw (finv p (2 ^ (64 * nwords) % p))
 def f2fromMont (p nwords : Nat) (raw : F2) : F2 := (fromMont p nwords raw.1, fromMont p nwords raw.2)
 
-end SqiModel.Fp2N
+end SqiModel.Fp2V
